@@ -331,6 +331,12 @@ func judgeScen(jd *judged, res *Result) {
 		}
 	}
 	allowed := scenAllowed(res)
+	deleted := map[string]bool{}
+	for _, w := range res.ExtWrites {
+		if w.Kind == "delete" && len(w.Replies) == 1 && w.Replies[0] == "success" {
+			deleted[w.Key] = true
+		}
+	}
 	for _, e := range res.Events {
 		r := parseReply(e.Data)
 		if r.OpID != scenOpID || !in(r.Type, "ok", "upd", "new") {
@@ -353,10 +359,17 @@ func judgeScen(jd *judged, res *Result) {
 				add(what, sc.Cmd, "not-a-json-object", "%s reply for %s carries %s", r.Type, key, q(data))
 				continue
 			}
-			if _, isObj := obj["_meta"].(map[string]any); !isObj {
+			meta, isObj := obj["_meta"].(map[string]any)
+			if !isObj {
 				add(what, sc.Cmd, "no-meta-section", "%s reply for %s carries %s", r.Type, key, q(data))
 			}
 			delete(obj, "_meta")
+			if len(obj) == 0 && deleted[key] && isObj && fmt.Sprint(meta["Deleted"]) != "0" {
+				// storages that hand out the stored object itself (hashmap): the record was deleted while it
+				// waited in the iterator buffer and is delivered in its state at reply time (no content, Deleted set)
+				jd.outcomes = append(jd.outcomes, sc.Cmd+":ok-for-record-deleted-meanwhile")
+				continue
+			}
 			if !versions[canon(obj)] {
 				add(what, sc.Cmd, "content-never-stored", "%s reply for %s carries content the record never had: %s (scenario %+v)", r.Type, key, q(data), *sc)
 			}
